@@ -1,4 +1,5 @@
 """Monitors evaluated on every node of the E3 prompt-tree exploration, per property."""
+import functools
 import hv
 from hv import world, refeval, monitors, e3
 from habutax.forms import available_forms
@@ -149,6 +150,17 @@ def monitor(pid, year, base, assign, r, asked):
         if r.exc is None and r.verdict:
             add(c15(year, r))
             cnt['solved_returns_checked'] = 1
+            if not assign and '1040' in r.solution and any(a[0] == '1040.estimated_tax_payments' for a in asked):
+                # total payments exactly equal to, one cent below and one cent above the total tax
+                gap = _f(r.solution, '1040', '24') - _f(r.solution, '1040', '33')
+                for d_ in (0.0, -0.01, 0.01):
+                    if gap + d_ + _f(r.solution, '1040', '26') < 0:
+                        continue
+                    rr, _ = e3.run_return(year, base, assign, bump={'1040.estimated_tax_payments': round(gap + d_, 2)})
+                    cnt['solves'] += 1
+                    if rr.exc is None and rr.verdict:
+                        add([(k_, f'payments {"equal to" if d_ == 0 else ("one cent above" if d_ > 0 else "one cent below")} the total tax: {m_}')
+                             for k_, m_ in c15(year, rr)])
     elif pid == 'C16':
         if r.exc is None and r.verdict:
             errs, n = c16(year, base, assign, r, asked)
@@ -430,6 +442,13 @@ def _match(name, pats):
     return any(fnmatch.fnmatchcase(name, p) for p in pats)
 
 
+@functools.lru_cache(maxsize=None)
+def _declared_1040(year):
+    from habutax.forms import available_forms
+    C = [C for C in available_forms[year] if C.form_name == '1040'][0]
+    return frozenset(i.name() for i in C().inputs())
+
+
 def c16(year, base, assign, r, asked):
     import itertools
     errs = []
@@ -492,6 +511,12 @@ def c16(year, base, assign, r, asked):
                 if _f(hi.solution, '1040', '24') < _f(lo.solution, '1040', '24') - 0.005:
                     errs.append(('wages-lower-tax|bracket-boundary', f'taxable income carried from {b - 1} to {b + 1} by 2 more dollars of wages: total tax {_f(lo.solution, "1040", "24")} -> {_f(hi.solution, "1040", "24")}'))
     # --- monotonicity and withholding
+    # these two amounts are part of every federal return: they are raised whether or not the solve asked for them
+    # (a return that no longer reads one of them ignores money the filer paid)
+    declared = _declared_1040(year)
+    for always in ('1040.other_federal_withholding', '1040.estimated_tax_payments'):
+        if always not in names and always in declared:     # (2021 declares no other-withholding input)
+            names = names + [always]
     for name in names:
         kind = None
         if _match(name, ['w-2:*.box_1']):
